@@ -71,3 +71,5 @@ func subRange(c Case) (int, int) {
 	}
 	return c.From, c.Count
 }
+
+func hspecHx(s string) []byte { return hspec.Hx(s) }
